@@ -800,10 +800,15 @@ def run(ctx):
             for seq in itertools.product(ops[:12] + ops[16:], repeat=4):
                 rn.one({'ad': ad, 'ti': None, 'collectors': cs, 'ops': list(seq)}, shrink=False)
     rn.flush()
+    from props import c06frame
+    c06frame.run(ctx)
 
 
 def replay(ctx, case):
     c = case.get('case', case)
+    if isinstance(c, dict) and 'frame' in c:
+        from props import c06frame
+        return c06frame.replay(ctx, c)
     prep = Prepared(c)
     fails = []
     obs, _ = run_history(prep, c['ops'], lambda sig, what, step: fails.append((sig, what)))
